@@ -64,21 +64,23 @@ pub fn world_for(prop: &str, rs: u64, world_arg: Option<&str>) -> &'static str {
     let wide = cfg!(feature = "32_components");
     match prop {
         "C11" | "C07" | "C03" => {
-            if r < 90 {
+            if wide && r >= 86 {
+                "W32"
+            } else if r < 88 {
                 "WA"
             } else {
                 "W16"
             }
         }
         _ => {
-            if r < 78 {
+            if wide && r >= 84 {
+                "W32"
+            } else if r < 76 {
                 "WA"
             } else if r < 88 {
                 "W16"
             } else if r < 94 {
                 "WZ"
-            } else if wide {
-                "W32"
             } else {
                 "WA"
             }
@@ -339,11 +341,11 @@ pub fn c12_enum_spec(rs: u64, unit: u64) -> RunSpec {
     s
 }
 
-pub const C11_KINDS: [AccKind; 5] = [AccKind::FindBorrow, AccKind::IterBorrow, AccKind::BorrowComp, AccKind::BorrowSlice, AccKind::CloneWorld];
+pub const C11_KINDS: [AccKind; 6] = [AccKind::FindBorrow, AccKind::IterBorrow, AccKind::BorrowComp, AccKind::BorrowSlice, AccKind::CloneWorld, AccKind::CloneArch];
 
 /// The access matrix enumerated: outer kind x inner kind x outer mutability x inner mutability x
 /// {same column, other column, other archetype} x {same entity, other entity, empty archetype}.
-pub const C11_CELLS: u64 = 5 * 5 * 2 * 2 * 3 * 3;
+pub const C11_CELLS: u64 = 6 * 6 * 2 * 2 * 3 * 3;
 pub fn c11_enum_spec(rs: u64, unit: u64) -> RunSpec {
     let mut c = unit % C11_CELLS;
     let mut take = |n: u64| {
@@ -351,8 +353,8 @@ pub fn c11_enum_spec(rs: u64, unit: u64) -> RunSpec {
         c /= n;
         r
     };
-    let ok = C11_KINDS[take(5) as usize];
-    let ik = C11_KINDS[take(5) as usize];
+    let ok = C11_KINDS[take(6) as usize];
+    let ik = C11_KINDS[take(6) as usize];
     let om = take(2) == 1;
     let im = take(2) == 1;
     let place = take(3);
